@@ -731,6 +731,10 @@ impl Check for C09 {
     fn essential(&self, _tier: Tier) -> Vec<&'static str> {
         vec!["spans-checked", "tab", "crlf", "non-ascii-before", "prelude-mixed", "op-no-return", "op-single-return", "op-tuple-return", "unchecked", "compact", "idempotent", "tagged", "enumerator-explicit", "type-attribute", "diagnostic-spans-checked", "comment-lint-spans-checked", "snippets-checked", "multi-line-span/non-ascii-on-inner-line", "multi-line-span/tab-on-inner-line", "single-line-span/non-ascii-before", "single-line-span/tab-before", "zero-width-span"]
     }
+    fn fuzz_families(&self, _tier: Tier) -> Vec<(&'static str, u64)> {
+        // libFuzzer runs per job (16 jobs), sized from the measured speed of the instrumented build
+        vec![("programs", 4000), ("diagnostics", 10000), ("comment-defects", 10000), ("snippets", 3000)]
+    }
     fn families(&self, tier: Tier) -> Vec<Family<'_>> {
         let layouts = tier.pick(2, 4);
         let cfg = GenCfg::default();
